@@ -34,6 +34,7 @@ RULE += " Added after the seeded rounds: " + 'Also generated: values of the wron
 RULE += " Histories may read or reset the validator's statistics between folds (get_statistics / reset_statistics; an enumerated table over 2 schemas x 6 wrappers x 6 strategy orders x 2 call lists): fold and fold_enhanced must keep agreeing."
 RULE += ' Strings contain characters JSON writes as escapes (astral, BMP, control, unpaired surrogates) and a writer style emits non-ASCII as \\\\uXXXX escapes.'
 RULE += " Round 7: `deep` cases nest 150..60000 levels of brackets / objects (open, balanced, as a field value, before or after a clean object, fenced): beyond the decoder's recursion limit, where its error is no longer a ValueError."
+RULE += " Round 8: integer values beyond 2**53 (up to 10**30 + 7, as numbers and as strings to be coerced) and floats at the edges of the format (0.1, 1e-7, 1e16, max, denormal min)."
 
 TYPES = ["int", "float", "str", "bool", "list_int", "list_str", "opt_int", "opt_str", "nested"]
 STRS = ["plain", "None of the above", "True story", "it's", 'a "quoted" word', "{brace}", "[1,2]", "x,}", "key: 'v'", "```", "NaN", "undefined", "",
@@ -46,9 +47,10 @@ _str = st.one_of(st.sampled_from(STRS), st.text(max_size=6))
 
 def _value(t):
     if t == "int":
-        return st.integers(-50, 1000)
+        # beyond what a float can carry exactly (2**53 + 1, 10**18 + 1, 10**30 + 7): a value that makes a detour through float comes back changed
+        return st.one_of(st.integers(-50, 1000), st.integers(-50, 1000), st.sampled_from([2 ** 31, -2 ** 31 - 1, 2 ** 53 + 1, -(2 ** 53) - 1, 10 ** 18 + 1, 2 ** 63, 2 ** 64 + 3, 10 ** 30 + 7]))
     if t == "float":
-        return st.one_of(st.integers(-5, 5).map(float), st.sampled_from([0.5, 2.25, -1.75, 1e3]))
+        return st.one_of(st.integers(-5, 5).map(float), st.sampled_from([0.5, 2.25, -1.75, 1e3]), st.sampled_from([0.1, 1e-7, 123456789.123456789, 1e16, 1.7976931348623157e308, 5e-324, 2.0 ** 53]))
     if t == "str":
         return _str
     if t == "bool":
@@ -124,6 +126,14 @@ def enumerate_cases(tier):
                 yield {"fields": [["f", t]], "inst": {"f": 0}, "sem": [["mistype", "f", v]], "style": {}, "wrap": [], "trunc": None, "order": order, "raw": None}
     for case in _maint_table():
         yield case
+    for big in (2 ** 53 + 1, -(2 ** 53) - 1, 10 ** 18 + 1, 10 ** 30 + 7):
+        for order in (None, [2], [2, 0], [3, 2, 1, 0], [0, 1, 2, 3]):
+            for extra in ([], [["swap", "name"]], [["mistype", "flag", "yes"]]):
+                # the big integer delivered as a string (lenient coercion), alone or next to a second defect that only the lenient strategy repairs
+                yield {"fields": [["count", "int"], ["name", "str"], ["flag", "bool"]], "inst": {"count": big, "name": "Ada", "flag": True}, "sem": [["swap", "count"]] + extra,
+                       "style": {}, "wrap": [], "trunc": None, "order": order, "raw": None}
+                yield {"fields": [["count", "int"], ["name", "str"], ["flag", "bool"]], "inst": {"count": big, "name": "Ada", "flag": True}, "sem": extra,
+                       "style": {}, "wrap": [], "trunc": None, "order": order, "raw": None}
     for kind in DEEP_KINDS:
         for n in DEEP_N:
             for order in (None, [0], [1], [2], [3], [3, 2, 1, 0]):
